@@ -1,6 +1,9 @@
 import RulesModel.Tie.Common
+import RulesModel.Proofs.TableSem
 /-! Tie T2 (StringOperation): shapes of the methods as read from the Go source by the translator -/
 namespace Rules.Tie
 theorem OpsString_keys : (rowsOf ["StringOperation."] Generated.opTable).map (·.1) = (rowsOf ["StringOperation."] Expected.opTable).map (·.1) := by decide +kernel
 theorem OpsString_tie : (rowsOf ["StringOperation."] Generated.opTable).all (rowOK Expected.opTable) = true := by decide +kernel
+/-- semantic form: each recognised row parses to the code whose meaning `TableSem.opTable_sem` proves to be the model's function -/
+theorem OpsString_sem : TableSem.codesOK Generated.opTable [.string] = true := by decide +kernel
 end Rules.Tie
